@@ -22,6 +22,7 @@ import (
 	"github.com/superfly/litefs"
 	"github.com/superfly/litefs/verifharness/core"
 	"github.com/superfly/litefs/verifharness/faults"
+	"github.com/superfly/litefs/verifharness/sim"
 )
 
 type call struct {
@@ -230,7 +231,7 @@ func main() {
 	sameOwner(rep, core.Pick(args, 150000, 1500000))
 	compositeCancelled(rep)
 	// failure paths (spec/Faults.tla): every call of the operation through the OS interface fails once
-	faults.Run(rep, args, faults.Select{Ops: []string{"halt", "import", "drop"}, Monitors: []string{"locks"}})
+	faults.Run(rep, args, faults.Select{Ops: []string{"halt", "import", "drop"}, Monitors: []string{"locks"}, Kinds: core.Pick(args, []string{"error"}, faults.LocalKinds), Layouts: core.Pick(args, []sim.Layout{sim.L0(4096)}, []sim.Layout{sim.L0(4096), sim.L1(512)})})
 	rep.Finish()
 }
 
